@@ -1,7 +1,12 @@
 package harness
 
 import (
+	"bytes"
 	"context"
+	"encoding/json"
+	"fmt"
+	"io"
+	"net/http"
 	"strings"
 	"time"
 
@@ -70,6 +75,15 @@ func genC13(r *simrt.RNG, tier string, variant int) Plan {
 		p.Ops = append(p.Ops, Op{Kind: "call", Client: i % len(p.Clients), Tok: tok, Phase: 1, Size: 10})
 		tok++
 	}
+	if r.Bool(0.3) {
+		// a JSON-RPC batch posted over HTTP (and through HandleRequest) in which one
+		// element's handler panics: its siblings in the same batch keep their replies
+		nb := 2 + r.Intn(4)
+		p.Params["batch_n"] = int64(nb)
+		p.Params["batch_panic_at"] = int64(r.Intn(nb))
+		p.Params["batch_first_tok"] = int64(tok)
+		p.Params["batch_kind"] = int64(r.Intn(len(panicKinds)))
+	}
 	return p
 }
 
@@ -122,6 +136,9 @@ func runC13(e *Env, p *Plan) {
 	if !e.S.Settle(3 * time.Second) {
 		return
 	}
+	if nb := int(p.Param("batch_n", 0)); nb > 0 {
+		c13Batch(e, w, p, nb)
+	}
 	w.CheckAllReturned("C13.every-call-returns")
 	w.CheckOwnResults("C13.siblings-unaffected", false)
 	for _, op := range p.Ops {
@@ -163,4 +180,67 @@ func runC13(e *Env, p *Plan) {
 		}
 	}
 	w.Teardown()
+}
+
+// c13Batch posts a batch of nb calls, one of which panics, over HTTP and then
+// through RPCServer.HandleRequest, and checks the reply element by element.
+func c13Batch(e *Env, w *World, p *Plan, nb int) {
+	first, at := int(p.Param("batch_first_tok", 9000)), int(p.Param("batch_panic_at", 0))
+	kind := panicKinds[int(p.Param("batch_kind", 0))%len(panicKinds)]
+	hc := &http.Client{Transport: &http.Transport{DialContext: e.N.Dialer(false), DisableKeepAlives: true}}
+	for mode := 0; mode < 2; mode++ {
+		var elems []string
+		base := first + mode*nb
+		for i := 0; i < nb; i++ {
+			op := Op{Kind: "call", Tok: base + i, Client: 99}
+			if i == at {
+				op.Panic = kind
+			}
+			w.Register(op)
+			elems = append(elems, fmt.Sprintf(`{"jsonrpc":"2.0","id":%d,"method":"T.Call","params":[%d]}`, base+i, base+i))
+		}
+		body := "[" + strings.Join(elems, ",") + "]"
+		e.Probe("http-batch-with-a-panicking-element")
+		var reply string
+		if mode == 0 {
+			resp, err := hc.Post("http://"+p.Servers[0].Addr+"/rpc", "application/json", strings.NewReader(body))
+			if err != nil {
+				e.Violate("C13.siblings-unaffected", "batch with a panicking element: the POST failed at transport level: %v", err)
+				continue
+			}
+			b, _ := io.ReadAll(resp.Body)
+			resp.Body.Close()
+			reply = string(b)
+		} else {
+			var out bytes.Buffer
+			w.Servers[0].RPC.HandleRequest(context.Background(), strings.NewReader(body), &out)
+			reply = out.String()
+		}
+		var rs []struct {
+			ID     int             `json:"id"`
+			Result json.RawMessage `json:"result"`
+			Error  *struct {
+				Message string `json:"message"`
+			} `json:"error"`
+		}
+		if err := json.Unmarshal([]byte(reply), &rs); err != nil {
+			e.Violate("C13.siblings-unaffected", "batch of %d with a panicking element at %d: the reply is not a JSON array of responses (%v): %q", nb, at, err, trunc(reply))
+			continue
+		}
+		got := map[int]int{}
+		for i, r := range rs {
+			got[r.ID] = i + 1
+		}
+		for i := 0; i < nb; i++ {
+			k := got[base+i]
+			switch {
+			case k == 0:
+				e.Violate("C13.siblings-unaffected", "batch of %d with a panicking element at %d: no reply for element %d: %q", nb, at, i, trunc(reply))
+			case i == at && (rs[k-1].Error == nil || !strings.Contains(rs[k-1].Error.Message, "panic")):
+				e.Violate("C13.panic-reported", "batch: the panicking element %d was answered without an error mentioning the panic: %q", i, trunc(reply))
+			case i != at && (rs[k-1].Error != nil || !strings.Contains(string(rs[k-1].Result), fmt.Sprintf("R%d:", base+i))):
+				e.Violate("C13.siblings-unaffected", "batch: element %d next to the panicking one lost its reply: %q", i, trunc(reply))
+			}
+		}
+	}
 }
